@@ -567,11 +567,18 @@ pub fn run(ctx: &Ctx, rep: &mut Report) {
     engine::drive(ctx, rep, "codec-read", codec_case_strategy(), cases, check_codec_case);
     let cases = ctx.share(ctx.tier.pick(12_000, 600_000));
     engine::drive(ctx, rep, "large-read-sequences", seq_case_strategy(), cases, check_seq_case);
+    let cases = ctx.share(ctx.tier.pick(600, 20_000));
+    {
+        let _ballast = super::iovec_sm::Ballast::new(super::iovec_sm::BALLAST_MIB);
+        engine::drive(ctx, rep, "large-read-sequences-with-ballast", seq_case_strategy(), cases, check_seq_case);
+    }
 }
 
 fn replay(_ctx: &Ctx, group: &str, case: &Value) -> CaseResult {
     if group == "codec-read" {
         check_codec_case(&parse_case::<CodecCase>(case)?)
+    } else if group == "large-read-sequences-with-ballast" {
+        super::iovec_sm::check_with_ballast(&parse_case::<SeqCase>(case)?, check_seq_case)
     } else if group == "large-read-sequences" {
         check_seq_case(&parse_case::<SeqCase>(case)?)
     } else {
